@@ -109,6 +109,21 @@ class NewGen:
             e = {"k": "e", "decl": decl, "ptr": self.rng.random() < 0.45,
                  "new": depth == 0 and opts.get("new") and self.rng.random() < opts["new"], "pkg": None}
             members.insert(self.rng.randint(0, len(members)), e)
+        # multi-name declarations (`a, B int` sharing doc comment and tag), possibly of mixed exportedness
+        if self.rng.random() < opts.get("group", 0.2):
+            idxs = [i for i, m in enumerate(members) if m["k"] == "f" and not m["name"].startswith("_")]
+            if idxs:
+                i = self.rng.choice(idxs)
+                m = members[i]
+                n2 = m["name"][:1].swapcase() + m["name"][1:] + "2" if self.rng.random() < 0.6 else m["name"] + "B"
+                self.gid = getattr(self, "gid", 0) + 1
+                twin = dict(m, name=n2, group=self.gid)
+                m["group"] = self.gid
+                if is_exported(m["name"]) or is_exported(n2):
+                    for x in (m, twin):
+                        x["get"] = x["set"] = False
+                self.used.setdefault(depth, set()).add(n2)
+                members.insert(i + 1, twin)
         return {"name": name, "tparams": tparams, "typedoc": None, "members": members}
 
     def top(self, name="T", **opts):
@@ -157,7 +172,17 @@ def render_struct(s):
         if s["typedoc"] != "none-doc":
             lines.append("// shoot: %s" % s["typedoc"])
     lines.append("type %s%s struct {" % (s["name"], tp))
+    prev_group = None
     for m in s["members"]:
+        if m["k"] == "f" and m.get("group") is not None and m.get("group") == prev_group:
+            # joined to the previous declaration: `a, b T`
+            for j in range(len(lines) - 1, -1, -1):
+                if lines[j].startswith("\t") and not lines[j].lstrip().startswith("//"):
+                    first, rest = lines[j][1:].split(" ", 1)
+                    lines[j] = "\t%s, %s %s" % (first, m["name"], rest)
+                    break
+            continue
+        prev_group = m.get("group") if m["k"] == "f" else None
         if m["k"] == "f":
             dirs = []
             if m.get("new"):
@@ -221,6 +246,10 @@ def instantiate(s):
 # S-expression payloads for the Lean driver
 # ------------------------------------------------------------------------------------------------
 
+def field_has_doc(m):
+    return bool(m.get("new") or m.get("get") or m.get("set") or m.get("def") is not None or m.get("hasdoc"))
+
+
 def skip_of(m, top):
     return m["name"].startswith("_") or bool(m.get("tagskip"))
 
@@ -236,6 +265,12 @@ def members_sexp(s, top=True):
                 item.append("skip")
             if m.get("def") is not None:
                 item.append(["def", Q(m["def"])])
+            if field_has_doc(m):
+                item.append("hasdoc")
+            if m.get("get"):
+                item.append("get")
+            if m.get("set"):
+                item.append("set")
             out.append(item)
         else:
             d = m["decl"]
